@@ -227,14 +227,15 @@ theorem findStep_some {cur : Option Nat} {l : List Entry} {e : Entry} (h : findS
     have := List.find?_some h
     exact ⟨List.mem_of_find?_eq_some h, by simpa using (by simpa using this : _ ∧ _).2⟩
 
-theorem lcbLoop_inv (flat : List Entry) : ∀ (fuel : Nat) (l : List Entry) (cur : Option Nat) (acc res : List Entry),
+theorem lcbLoop_inv (flat : List Entry) : ∀ (fuel : Nat) (l : List Entry) (cur : Option Nat) (acc : List Entry)
+    (res : List Entry × List Entry),
     lcbLoop fuel l cur acc = .ok res → ChainR acc.reverse → cur = curOf acc.reverse → flat ~ acc ++ l →
-    ChainR res.reverse ∧ ∃ l', flat ~ res ++ l'
+    ChainR res.1.reverse ∧ flat ~ res.1 ++ res.2
   | 0, _, _, _, _, h, _, _, _ => by simp [lcbLoop] at h
   | fuel + 1, l, cur, acc, res, h, hc, hcur, hp => by
     unfold lcbLoop at h
     split at h
-    · injection h with h; subst h; exact ⟨hc, l, hp⟩
+    · injection h with h; subst h; exact ⟨hc, hp⟩
     next e he =>
       obtain ⟨hmem, hstep⟩ := findStep_some he
       split at h
@@ -247,11 +248,25 @@ theorem lcbLoop_inv (flat : List Entry) : ∀ (fuel : Nat) (l : List Entry) (cur
           refine hp.trans ?_
           rw [append_assoc]
           exact Perm.append_left _ (by simpa using this)
-      · injection h with h; subst h; exact ⟨hc, l, hp⟩
+      · injection h with h; subst h; exact ⟨hc, hp⟩
+
+theorem lcbSplit_inv {flat : List Entry} {mr : List Entry × List Entry} (h : lcbSplit flat = .ok mr) :
+    ChainR mr.1.reverse ∧ flat ~ mr.1 ++ mr.2 :=
+  lcbLoop_inv flat _ _ _ _ _ h (by simp [ChainR]) (by simp [curOf]) (by simp)
+
+theorem lcbMembers_split {flat mem : List Entry} (h : lcbMembers flat = .ok mem) :
+    ∃ rest, lcbSplit flat = .ok (mem, rest) := by
+  unfold lcbMembers at h
+  cases hs : lcbSplit flat with
+  | error e => simp [hs, Except.map] at h
+  | ok mr =>
+    simp [hs, Except.map] at h
+    exact ⟨mr.2, by rw [← h]⟩
 
 theorem lcbMembers_inv {flat mem : List Entry} (h : lcbMembers flat = .ok mem) :
-    ChainR mem.reverse ∧ ∃ rest, flat ~ mem ++ rest :=
-  lcbLoop_inv flat _ _ _ _ _ h (by simp [ChainR]) (by simp [curOf]) (by simp)
+    ChainR mem.reverse ∧ ∃ rest, flat ~ mem ++ rest := by
+  obtain ⟨rest, hs⟩ := lcbMembers_split h
+  exact ⟨(lcbSplit_inv hs).1, rest, (lcbSplit_inv hs).2⟩
 
 /-- the run-time values of an entry agree with the static strides where those are static -/
 def Entry.Consistent (el : Nat) (e : Entry) : Prop :=
@@ -376,18 +391,58 @@ theorem burst_size (el : Nat) (mem : List Entry) (hc : ChainR mem.reverse) (hs :
     simp only [map_cons, cons_append, prodT, Entry.triple]
     rw [← d1, k1 ls h2, k3 lb h1, Nat.mul_assoc]
 
-theorem build_moves (el sb db total : Nat) (flat mem : List Entry) (p : DmaProg)
-    (hm : lcbMembers flat = .ok mem)
-    (hb : build el sb db total (lcbOfMembers mem) flat = .ok p)
-    (hcons : ∀ e ∈ flat, e.Consistent el)
+/-! ### step 6.2/6.3: the loop nest built by index arithmetic is the list of remaining strides, in order -/
+
+theorem wrapLoops_aux (upper : List Nat) (hne : upper ≠ []) : ∀ k, k ≤ upper.length - 1 →
+    (List.range k).foldl (fun nest i => upper.getD (upper.length - 2 - i) 0 :: nest) [upper.getLastD 0] =
+      upper.drop (upper.length - 1 - k)
+  | 0, _ => by
+    simp only [range_zero, foldl_nil, Nat.sub_zero]
+    cases h : upper.reverse with
+    | nil => exact absurd (by simpa using h) hne
+    | cons a r =>
+      have hu : upper = r.reverse ++ [a] := by simpa using congrArg List.reverse h
+      subst hu; simp
+  | k + 1, hk => by
+    rw [range_succ, foldl_append, wrapLoops_aux upper hne k (by omega)]
+    simp only [foldl_cons, foldl_nil]
+    have hlt : upper.length - 2 - k < upper.length := by omega
+    have h1 : upper.length - 1 - (k + 1) = upper.length - 2 - k := by omega
+    have h2 : upper.length - 1 - k = upper.length - 2 - k + 1 := by omega
+    rw [h1, h2, List.drop_eq_getElem_cons hlt]
+    simp [List.getD_eq_getElem?_getD, List.getElem?_eq_getElem hlt]
+
+/-- for every number of loops: the nest has exactly the trip counts `upper`, outermost first -/
+theorem wrapLoops_eq (upper : List Nat) (h : upper ≠ []) : wrapLoops upper = upper := by
+  unfold wrapLoops
+  rw [wrapLoops_aux upper h (upper.length - 1) (Nat.le_refl _)]
+  simp
+
+theorem zipWith_bound_triple (rest : List Entry) :
+    List.zipWith (fun b (e : Entry) => (b, e.sstep, e.dstep)) (rest.map (·.bound)) rest = rest.map Entry.triple := by
+  induction rest with
+  | nil => rfl
+  | cons e r ih => simp [Entry.triple, ih]
+
+theorem buildLoops_eq (rest : List Entry) : buildLoops rest = rest.map Entry.triple := by
+  unfold buildLoops
+  split
+  next h => simp [show rest = [] by simpa using h]
+  next h =>
+    rw [wrapLoops_eq _ (by intro hn; apply h; simpa using hn), zipWith_bound_triple]
+
+/-- core of steps 4–6: whatever list `remL` of remaining strides is handed to `build`, if the flat entries split
+into loops of trip count 1 (`U`), a permutation `R` of `remL`, and the block members, the program performs the loop
+nest over ALL entries and the element bytes. -/
+theorem build_moves_core (el sb db total : Nat) (flat mem remL : List Entry) (p : DmaProg)
+    (hchain : ChainR mem.reverse)
+    (hb : build el sb db total (lcbOfMembers mem) remL = .ok p)
+    (hkmem : ∀ m ∈ mem, m.Consistent el)
     (hstatic : ∀ m ∈ mem, m.ss.step ≠ none)
-    (hbv : ByValueDistinct flat)
+    (hsplit : ∃ U R, flat ~ U ++ (R ++ mem.reverse) ∧ (∀ u ∈ U, u.bound = 1) ∧ remL ~ R)
     (htotal : total = prodT (flat.map Entry.triple) * el) :
     p.moves ~ shift sb db (offs (flat.map Entry.triple ++ [(el, 1, 1)])) := by
-  obtain ⟨hchain, rest0, hperm0⟩ := lcbMembers_inv hm
-  have hmemflat : ∀ m ∈ mem, m ∈ flat := fun m h => hperm0.symm.subset (by simp [h])
-  have hkmem : ∀ m ∈ mem, m.Consistent el := fun m h => hcons m (hmemflat m h)
-  obtain ⟨U, R, hsplit, hU, hrem⟩ := byValue_split el hm hcons hstatic hbv
+  obtain ⟨U, R, hsplit, hU, hrem⟩ := hsplit
   have hUT : ∀ t ∈ U.map Entry.triple, t.1 = 1 := by
     intro t ht; obtain ⟨u, hu, rfl⟩ := mem_map.mp ht; exact hU u hu
   let B := mem.reverse.map Entry.triple ++ [(el, 1, 1)]
@@ -404,8 +459,8 @@ theorem build_moves (el sb db total : Nat) (flat mem : List Entry) (p : DmaProg)
   next hs =>
     -- no remaining strides: one 1-D transfer of the total size
     injection hb with hb; subst hb
-    have hremnil : remaining (lcbOfMembers mem) flat = [] := by
-      have := (sortDesc_perm (remaining (lcbOfMembers mem) flat)); rw [hs] at this; exact this.symm.eq_nil
+    have hremnil : remL = [] := by
+      have := (sortDesc_perm remL); rw [hs] at this; exact this.symm.eq_nil
     have hR : R = [] := by rw [hremnil] at hrem; exact hrem.symm.eq_nil
     subst hR
     rw [moves_oneD]
@@ -428,6 +483,7 @@ theorem build_moves (el sb db total : Nat) (flat mem : List Entry) (p : DmaProg)
       split at hb
       next lb ls h1 h2 =>
         injection hb with hb; subst hb
+        rw [buildLoops_eq]
         have hsz : prodT B = lb * ls * el := burst_size el mem hchain hstatic hkmem last lb ls hl h1 h2
         have hB : offs B = (List.range (lb * ls * el)).map fun k => (k, k) := by rw [offs_dense B hdense, hsz]
         rw [moves_twoD sb db _ _ _ _ _ B hB]
@@ -443,6 +499,30 @@ theorem build_moves (el sb db total : Nat) (flat mem : List Entry) (p : DmaProg)
         exact (h4.append_right B).symm
       · simp at hb
 
+/-- with fix F21 (membership by position): besides the members only loops of trip count 1 are dropped, with no
+assumption on the layout. -/
+theorem byKey_split (el : Nat) {flat : List Entry} {mr : List Entry × List Entry} (hs : lcbSplit flat = .ok mr)
+    (hcons : ∀ e ∈ flat, e.Consistent el) :
+    ∃ U R, flat ~ U ++ (R ++ mr.1.reverse) ∧ (∀ u ∈ U, u.bound = 1) ∧ remainingByKey (lcbOfMembers mr.1) mr.2 ~ R := by
+  obtain ⟨_, hperm⟩ := lcbSplit_inv hs
+  let pr : Entry → Bool := fun e => !unitCovered (lcbOfMembers mr.1) e
+  refine ⟨mr.2.filter (fun e => !pr e), mr.2.filter pr, ?_, ?_, Perm.refl _⟩
+  · refine hperm.trans ?_
+    have h1 : mr.2 ~ mr.2.filter (fun e => !pr e) ++ mr.2.filter pr := by
+      have := filter_append_perm (fun e => !pr e) mr.2
+      simpa using this.symm
+    have h2 : mr.1 ~ mr.1.reverse := (reverse_perm mr.1).symm
+    calc mr.1 ++ mr.2 ~ mr.2 ++ mr.1 := perm_append_comm
+      _ ~ (mr.2.filter (fun e => !pr e) ++ mr.2.filter pr) ++ mr.1.reverse := Perm.append h1 h2
+      _ = _ := by rw [append_assoc]
+  · intro u hu
+    rw [mem_filter] at hu
+    obtain ⟨hu0, hu1⟩ := hu
+    have huflat : u ∈ flat := hperm.symm.subset (by simp [hu0])
+    have hb : u.ss.bound = some 1 := by
+      simp only [pr, unitCovered, Bool.not_not, Bool.and_eq_true, beq_iff_eq] at hu1
+      exact hu1.2
+    exact (hcons u huflat).2.2 1 hb
 
 theorem prodT_flatten (nested : List (List Entry)) :
     prodT (nested.flatten.map Entry.triple) = (nested.map prodB).foldr (· * ·) 1 := by
@@ -450,33 +530,66 @@ theorem prodT_flatten (nested : List (List Entry)) :
   | nil => rfl
   | cons d ds ih => rw [flatten_cons, map_append, prodT_append, ih, map_cons, foldr_cons, prodB_eq_prodT]
 
+theorem lcbOfMembers_static {mem : List Entry} {lcb : List Stride} (hl : lcb = lcbOfMembers mem)
+    (hLS : ∀ s ∈ lcb, s.step ≠ none) : ∀ m ∈ mem, m.ss.step ≠ none := by
+  intro m hmm
+  apply hLS
+  rw [hl]
+  unfold lcbOfMembers
+  have : mem.isEmpty = false := by cases mem <;> simp_all
+  simp only [this]
+  exact mem_map.mpr ⟨m, hmm, rfl⟩
+
+/-- steps 2–6 WITH fix F21: no by-value clause. -/
 theorem lowerResolved_moves (el sb db : Nat) (nested : List (List Entry)) (lcb : List Stride) (p : DmaProg)
-    (h : lowerResolved el sb db (nested.map prodB) nested = .ok (lcb, p))
+    (h : lowerResolved false el sb db (nested.map prodB) nested = .ok (lcb, p))
+    (hLS : ∀ s ∈ lcb, s.step ≠ none)
+    (hRC : ∀ e ∈ nested.flatten, e.Consistent el) :
+    p.moves ~ expectedMoves el sb db (nested.map prodB) nested := by
+  unfold lowerResolved at h
+  split at h
+  · simp at h
+  next mr hm =>
+    split at h
+    · simp at h
+    next p' hb =>
+      simp only [Except.ok.injEq, Prod.mk.injEq] at h
+      obtain ⟨h1, h2⟩ := h
+      subst h2
+      obtain ⟨hchain, hperm⟩ := lcbSplit_inv hm
+      have hkmem : ∀ m ∈ mr.1, m.Consistent el := fun m hmm => hRC m (hperm.symm.subset (by simp [hmm]))
+      rw [expectedMoves_eq]
+      simp only [Bool.false_eq_true, if_false] at hb
+      exact build_moves_core el sb db _ nested.flatten mr.1 _ p' hchain hb hkmem
+        (lcbOfMembers_static h1.symm hLS) (byKey_split el hm hRC) (by rw [totalBytes, prodT_flatten])
+
+/-- steps 2–6 BEFORE fix F21 (by-value membership): needs `ByValueDistinct`. -/
+theorem lowerResolved_moves_byValue (el sb db : Nat) (nested : List (List Entry)) (lcb : List Stride) (p : DmaProg)
+    (h : lowerResolved true el sb db (nested.map prodB) nested = .ok (lcb, p))
     (hLS : ∀ s ∈ lcb, s.step ≠ none) (hBV : ByValueDistinct nested.flatten)
     (hRC : ∀ e ∈ nested.flatten, e.Consistent el) :
     p.moves ~ expectedMoves el sb db (nested.map prodB) nested := by
   unfold lowerResolved at h
   split at h
   · simp at h
-  next mem hm =>
+  next mr hm =>
     split at h
     · simp at h
     next p' hb =>
       simp only [Except.ok.injEq, Prod.mk.injEq] at h
       obtain ⟨h1, h2⟩ := h
-      subst h1 h2
+      subst h2
+      obtain ⟨hchain, hperm⟩ := lcbSplit_inv hm
+      have hkmem : ∀ m ∈ mr.1, m.Consistent el := fun m hmm => hRC m (hperm.symm.subset (by simp [hmm]))
+      have hmem : lcbMembers nested.flatten = .ok mr.1 := by simp [lcbMembers, hm, Except.map]
+      have hst := lcbOfMembers_static h1.symm hLS
       rw [expectedMoves_eq]
-      refine build_moves el sb db _ nested.flatten mem p' hm hb hRC ?_ hBV ?_
-      · intro m hmm
-        apply hLS
-        unfold lcbOfMembers
-        have : mem.isEmpty = false := by cases mem <;> simp_all
-        simp only [this]
-        exact mem_map.mpr ⟨m, hmm, rfl⟩
-      · rw [totalBytes, prodT_flatten]
+      simp only [if_true] at hb
+      exact build_moves_core el sb db _ nested.flatten mr.1 _ p' hchain hb hkmem hst
+        (byValue_split el hmem hRC hst hBV) (by rw [totalBytes, prodT_flatten])
 
-theorem lowerResolved_bases {el sb db : Nat} {shape : List Nat} {nested : List (List Entry)}
-    {r : List Stride × DmaProg} (hr : lowerResolved el sb db shape nested = .ok r) :
+theorem lowerResolved_bases {bv : Bool} {el sb db : Nat} {shape : List Nat} {nested : List (List Entry)}
+    {r : List Stride × DmaProg} (hr : lowerResolved bv el sb db shape nested = .ok r) :
     r.2.sbase = sb ∧ r.2.dbase = db := by
   unfold lowerResolved at hr
   split at hr
@@ -495,8 +608,9 @@ theorem lowerResolved_bases {el sb db : Nat} {shape : List Nat} {nested : List (
         · injection hp with hp; subst hp; exact ⟨rfl, rfl⟩
         · simp at hp
 
-theorem transformDma_inv {src dst : MemTy} {rs rd : Rt} {l : Lowered} (h : transformDma src dst rs rd = .ok l) :
-    lowerResolved src.el l.prog.sbase l.prog.dbase rs.shape l.nested = .ok (l.lcb, l.prog) := by
+theorem transformDma_inv {bv : Bool} {src dst : MemTy} {rs rd : Rt} {l : Lowered}
+    (h : transformDma bv src dst rs rd = .ok l) :
+    lowerResolved bv src.el l.prog.sbase l.prog.dbase rs.shape l.nested = .ok (l.lcb, l.prog) := by
   unfold transformDma at h
   split at h
   · simp at h
